@@ -238,7 +238,8 @@ def analyzeLevel (c : Cat) : Nat → List (String × List ColInfo) → List Scop
     let fromList : List Node := match stmt.kind with
       | "SelectStmt" => (stmt.get "FromClause").items
       | "UpdateStmt" => [stmt.get "Relation"] ++ (stmt.get "FromClause").items
-      | "InsertStmt" | "DeleteStmt" => [stmt.get "Relation"]
+      | "InsertStmt" => [stmt.get "Relation"]
+      | "DeleteStmt" => [stmt.get "Relation"] ++ (stmt.get "UsingClause").items
       | "TruncateStmt" => (stmt.get "Relations").items
       | _ => []
     let (scope, fromPairs) ← fromList.foldlM (fun (st : Scope × List Pairing) it => do
@@ -304,8 +305,8 @@ def analyzeLevel (c : Cat) : Nat → List (String × List ColInfo) → List Scop
       | "SelectStmt" => stmt.get "TargetList"
       | _ => stmt.get "ReturningList"
     let retScope : Scope := match stmt.kind with
-      | "InsertStmt" | "DeleteStmt" => scope.take 1
-      | _ => scope
+      | "InsertStmt" => scope.take 1
+      | _ => scope          -- UPDATE … FROM and DELETE … USING: RETURNING sees every relation of the statement
     let shape ← targets.items.foldlM (fun (acc : List ColInfo) rt => do
       if !rt.isKind "ResTarget" then pure acc else
       let v := rt.get "Val"
